@@ -191,8 +191,15 @@ fn limb_case(r: &mut Rng) -> u64 {
 
 fn by_limb<const N: usize>(cx: &mut Cx, iters: usize) {
     for it in 0..iters {
-        let d = limb_case(&mut cx.rng);
-        let n = if cx.rng.coin() {
+        let d = if it % 5 == 4 { TOP + (cx.rng.next() >> 30) } else { limb_case(&mut cx.rng) };
+        let n = if it % 5 == 4 {
+            // exact multiples of a divisor just above 2^63 with all quotient limbs near MAX: the reciprocal estimate of the
+            // 2-by-1 step is then one too small about a quarter of the time, and the remainder before the last
+            // correction equals the divisor exactly
+            let q: Vec<u64> = (0..N.saturating_sub(1).max(1)).map(|_| MAX - (cx.rng.next() >> 30)).collect();
+            let p = vmul(&q, &[d]);
+            if fits(&p, N) { fit(trim(p), N) } else { vec![d] }
+        } else if cx.rng.coin() {
             // q*d + r
             let q = nat(&mut cx.rng, N);
             let rr = match cx.rng.below(3) { 0 => 0, 1 => d - 1, _ => cx.rng.next() % d };
